@@ -5,6 +5,8 @@ CONSTANTS
   Worlds <- QuickWorlds
   Rich = FALSE
   NumIter = 2
+  Sim = FALSE
+  Fine = TRUE
   Mutant = "none"
 INVARIANT PropertyHolds
 INVARIANT Emit
